@@ -36,3 +36,29 @@ with open('/verif/seeded/MATRIX.md', 'w') as fh:
   for r in rows:
     fh.write('| %s | %s | %s | %s | %s |\n' % r)
 print(len(rows), 'rows;', len([r for r in rows if r[3] == 1]), 'detected')
+
+# summary table in DESIGN.md
+import collections
+by = collections.defaultdict(dict)
+for d in sorted(glob.glob('/verif/seeded/C*-m*')):
+  sid = os.path.basename(d)
+  meta = json.load(open(os.path.join(d, 'meta.json')))
+  prop, k = sid.split('-')
+  hs = meta.get('detected_by')
+  if meta.get('obsolete'):
+    cell = '(obsolete)'
+  elif hs:
+    cell = ', '.join(sorted(set(('lemma ' + h[6:].split('_')[0]) if h.startswith('lemma:') else h.replace(prop + '_', '') for h in hs)))
+  elif hs is None:
+    cell = 'not run'
+  else:
+    cell = '**not detected**'
+  by[prop][k] = cell
+cols = ['m1', 'm2', 'm3', 'm4', 'm5', 'm6']
+lines = ['| property | ' + ' | '.join(cols) + ' |', '|---|' + '---|' * len(cols)]
+for prop in sorted(by):
+  lines.append('| %s | ' % prop + ' | '.join(by[prop].get(c, '') for c in cols) + ' |')
+ds = open('/verif/DESIGN.md').read()
+a, b = ds.index('<!-- SEED-TABLE-BEGIN -->'), ds.index('<!-- SEED-TABLE-END -->')
+ds = ds[:a] + '<!-- SEED-TABLE-BEGIN -->\n' + '\n'.join(lines) + '\n' + ds[b:]
+open('/verif/DESIGN.md', 'w').write(ds)
